@@ -750,7 +750,7 @@ async fn main() {
     let mut inst = Inst::start(&format!("inst{}", seed())).await;
     let only: Option<u64> = std::env::var("VERIF_ONLY").ok().and_then(|s| s.parse().ok());
     for w in 0..8 { if only.is_none() || only == Some(w) { directed(&mut inst, &mut out, w).await; } }
-    let n = if only.is_some() { 0 } else { scale(150, 1500) };
+    let n = if only.is_some() { 0 } else { scale(130, 1500) };
     for i in 0..n {
         let mut r = rng.fork();
         random_case(&mut inst, &mut out, &mut r, i as u64).await;
